@@ -36,6 +36,11 @@ pub fn start(listen_addr: &str, certificate: &X509Certificate, key_pair: &KeyPai
 	acceptor.set_certificate(&certificate.inner_cert)?;
 	acceptor.check_private_key()?;
 	let acceptor = Arc::new(acceptor.build());
+	#[cfg(feature = "breard_r_acmed_verif")]
+	if listen_addr.starts_with("sim:") {
+		use crate::verif::SimListener;
+		listen_and_accept!(SimListener, listen_addr, acceptor);
+	}
 	if cfg!(unix) && listen_addr.starts_with("unix:") {
 		let listen_addr = &listen_addr[5..];
 		debug!("listening on unix socket {listen_addr}");
